@@ -20,6 +20,7 @@ abbrev Str := List Nat
 
 /-- exception kinds the order object can raise -/
 inductive Exc | fixError | assertion | value | tagNotFound
+  | hook   -- whatever an overridden hook (set_instrument, set_account, set_price_qty, current_datetime) raises
   deriving DecidableEq, Repr
 
 inductive Res (α : Type)
@@ -321,6 +322,48 @@ def processExecReport (o : Order) (r : Report) : Order × Res Bool :=
     else
       finishExec (changeStatus spec o.status "8" ex st false)
         { o with orderId := some oid, leavesQty := leaves, cumQty := cum, avgPx := some avg }
+
+/-! ### overridable hooks that misbehave
+
+`set_instrument`, `set_account`, `set_price_qty`, `current_datetime` are documented extension points.
+All of them are called after the ClOrdID bookkeeping and before the status assignment of the builder,
+so the position of the faulty call does not matter for the order's state.  The theorems of C17 are
+about hooks that return normally and do not call back; these variants exist for the correspondence
+(the code as it is NOW is not exception safe: see Findings/C17). -/
+
+inductive Hook
+  | ok         -- returns normally
+  | raises     -- raises (nothing is sent)
+  | bumps      -- calls `clord_next()` itself while the message is being built (re-entrancy)
+  | reenters   -- calls `can_cancel()` / `can_replace()` while the message is being built
+  deriving DecidableEq, Repr
+
+def bumpCnt (r : Order × Res Msg) : Order × Res Msg :=
+  ({ r.1 with clordCnt := r.1.clordCnt + 1 }, r.2)
+
+def newReqH (o : Order) (h : Hook) : Order × Res Msg :=
+  if o.status ≠ "Z" then (o, .raised .assertion)
+  else match h with
+    | .raises => (takeNextId o, .raised .hook)
+    | .bumps => bumpCnt (newReq o)
+    | _ => newReq o
+
+def cancelReqH (o : Order) (h : Hook) : Order × Res Msg :=
+  match (cancelReq o).2, h with
+  | .ok _, .raises => (startRequest o o.status, .raised .hook)
+  | .ok _, .bumps => bumpCnt (cancelReq o)
+  | _, _ => cancelReq o
+
+def replaceReqH (o : Order) (price qty : Option Int) (h : Hook) : Order × Res Msg :=
+  match (replaceReq o price qty).2, h with
+  | .ok _, .raises => (startRequest o o.status, .raised .hook)
+  | .ok _, .bumps => bumpCnt (replaceReq o price qty)
+  | _, _ => replaceReq o price qty
+
+/-- what `can_cancel()` / `can_replace()` answer when called from inside a hook of a builder that gets that far -/
+def hookView (o : Order) (isNew : Bool) : Res Bool × Res Bool :=
+  let mid := if isNew then takeNextId o else startRequest o o.status
+  (canCancel mid, canReplace mid)
 
 /-! ### arbitrary call sequences (for the local theorems) -/
 
